@@ -549,6 +549,16 @@ pub mod router {
 	) -> (Vec<u64>, u64) {
 		crate::routing::router::verif::update_value_and_recompute_fees(hops, value_msat)
 	}
+
+	/// `PaymentPath::max_final_value_msat` on a synthetic path of private-hop candidates
+	/// `(base_msat, proportional_millionths, htlc_maximum_msat, used_liquidity_msat)`, payer side
+	/// first. Returns `Ok((limiting hop, maximum contribution))` or `Err(hop index)` when the
+	/// aggregated fees of the following hops overflow.
+	pub fn max_final_value_msat(
+		hops: &[(u32, u32, Option<u64>, u64)], channel_saturation_pow_half: u8,
+	) -> Result<(usize, u64), usize> {
+		crate::routing::router::verif::max_final_value_msat(hops, channel_saturation_pow_half)
+	}
 }
 
 /// `latest_monitor_update_id` of a funded channel: the id of the last `ChannelMonitorUpdate` the
